@@ -1,17 +1,18 @@
 import Spine.Discovery
 namespace Spine.Disc
 
-def t0 : Tree := [{ addr := [0], typ := 0, feats := [⟨[0], 0, 0, 2⟩] }, { addr := [2], typ := 1, feats := [] }]
+def t0 : Tree := [{ addr := [0], typ := 0, desc := none, feats := [⟨[0], 0, 0, 2, none, []⟩] },
+  { addr := [2], typ := 1, desc := none, feats := [] }]
 
 /-- C06 refuted (as written): one notification announces entity [1] as added and entity [2] as removed;
     afterwards neither is known -/
 theorem mixed_add_remove_witness :
-    ((notifyPartial { ents := [⟨[1], 1, .added⟩, ⟨[2], 1, .removed⟩], feats := [⟨[1], 1, 1, 0⟩] } t0).1.map (·.addr))
+    ((notifyPartial { ents := [⟨[1], 1, .added, none⟩, ⟨[2], 1, .removed, none⟩], feats := [⟨[1], 1, 1, 0, none, []⟩] } t0).1.map (·.addr))
       = [[0]] := by decide
 
 /-- … and with the two entries in the other order both are known, the removed one re-created without features -/
 theorem mixed_remove_add_witness :
-    ((notifyPartial { ents := [⟨[2], 1, .removed⟩, ⟨[1], 1, .added⟩], feats := [⟨[1], 1, 1, 0⟩] } t0).1.map (·.addr))
+    ((notifyPartial { ents := [⟨[2], 1, .removed, none⟩, ⟨[1], 1, .added, none⟩], feats := [⟨[1], 1, 1, 0, none, []⟩] } t0).1.map (·.addr))
       = [[0], [2], [1]] := by decide
 
 /-- C05 refuted (as written): a full notification that lists no entity removes the device-information entity,
@@ -38,7 +39,7 @@ theorem all_added_keeps (m : Msg) (t : Tree) (e : E) (he : e ∈ t) :
     cases hf : findE t' ei.addr with
     | some _ =>
       simp only
-      refine ⟨if e'.addr = ei.addr then { e' with feats := m.feats.filter (·.ent = ei.addr) } else e', ?_, ?_⟩
+      refine ⟨if e'.addr = ei.addr then { e' with desc := ei.desc, feats := m.feats.filter (·.ent = ei.addr) } else e', ?_, ?_⟩
       · exact List.mem_map.mpr ⟨e', he', rfl⟩
       · split <;> exact hadr
     | none =>
